@@ -709,38 +709,23 @@ func (f *Frame) applyContract(in ssa.Instruction, cc *ssa.CallCommon, callee *ss
 		t := c.evalSpecFn(cl.Fn, pa, st, snapOf(st), f)[0]
 		t = c.define("pre", t)
 		c.addObl(&Obligation{Name: c.oblName(f.label, "pre@"+blk.QualName()), Kind: "pre@call", Fn: f.label, Pos: f.posOf(pos), Text: "requires " + cl.Text + "  [at call of " + blk.QualName() + "]", Reach: st.Reach, Goal: t, Clause: cl})
-		st.assume(c, t)
+		if !blk.Flags["hide-requires"] {
+			// (a lemma marked hide-requires leaves only its conclusion in the
+			// caller's context: the stepping stones it needed are proved, not kept)
+			st.assume(c, t)
+		}
 	}
 	f.callsiteObligations(in, callee.Name(), blk.QualName(), nil, args, st)
-	// recursion: decreases
-	if callee == f.topFrame().fn && blk.Dec != nil {
-		top := f.topFrame()
-		d0 := c.evalSpecFn(blk.Dec.Fn, top.argVals, top.entry, snapOf(top.entry), top)[0]
-		d1 := c.evalSpecFn(blk.Dec.Fn, args, st, snapOf(st), f)[0]
-		c.addObl(&Obligation{Name: c.oblName(f.label, "rec-decreases"), Kind: "rec-decreases", Fn: f.label, Pos: f.posOf(pos), Text: "decreases " + blk.Dec.Text, Reach: st.Reach, Goal: And(Ge(d0, IntLit(0)), Lt(d1, d0)), Clause: blk.Dec})
-	}
+	// recursion: the callee's measure must be below the measure of the
+	// function under verification whenever the call can lead back to it
+	// (direct, mutual, or through a closure of that function)
+	f.recursionObligation(in, callee, blk, args, st)
 	old := snapOf(st)
 	f.pointwise = nil
 	if len(blk.Modifies) > 0 {
 		// frame clause: object fields of the named pointer parameters' types
 		// change only at those objects
-		f.pointwise = map[string][]Term{}
-		for _, m := range blk.Modifies {
-			for i, pn := range blk.ParamNames {
-				if pn != m || i >= len(callee.Params) {
-					continue
-				}
-				if pt, ok := callee.Params[i].Type().Underlying().(*types.Pointer); ok {
-					prefix := "H|" + typeKey(pt.Elem()) + "|"
-					f.pointwise[prefix] = append(f.pointwise[prefix], args[i][0])
-				}
-				if sl, ok := callee.Params[i].Type().Underlying().(*types.Slice); ok {
-					// a slice parameter: only its backing array changes
-					prefix := "A|" + elemKey(sl.Elem()) + "|"
-					f.pointwise[prefix] = append(f.pointwise[prefix], args[i][0])
-				}
-			}
-		}
+		f.pointwise = f.frameRefs(blk, callee.Params, args, st)
 		if blk.Flags["trusted"] {
 			c.note("assumed", "assumed frame of "+blk.QualName()+": modifies only "+strings.Join(blk.Modifies, ", "))
 		}
@@ -1014,6 +999,7 @@ func (f *Frame) opaqueCall(in ssa.Instruction, cc *ssa.CallCommon, callee *ssa.F
 			qual = callee.Pkg.Pkg.Name() + "." + callee.Name()
 		}
 		f.callsiteObligations(in, short, qual, nil, args, st)
+		f.recursionObligation(in, callee, c.eng.ld.ByFn[callee], args, st)
 	}
 	// interior pointers passed as arguments: copy-in / copy-out is subsumed by
 	// the havoc of the keys they address (directWrites adds them).
@@ -1540,4 +1526,182 @@ func (f *Frame) setPassedRefs(cc *ssa.CallCommon) {
 			f.passedRefs[s] = true
 		}
 	}
+}
+
+// frameRefs resolves a contract's modifies list against actual arguments:
+// heap-key prefix -> the references at which keys of that prefix may change.
+//   modifies p    (p a pointer)          : the object p points to
+//   modifies p    (p a slice)            : p's backing array
+//   modifies *p   (p a pointer to slice) : the slice header *p and the backing
+//                                          array it has in the pre-state
+func (f *Frame) frameRefs(blk *Block, params []*ssa.Parameter, args [][]Term, st *State) map[string][]Term {
+	c := f.ctx
+	out := map[string][]Term{}
+	for _, m := range blk.Modifies {
+		deref := strings.HasPrefix(m, "*")
+		name := strings.TrimPrefix(m, "*")
+		for i, pn := range blk.ParamNames {
+			if pn != name || i >= len(params) || i >= len(args) {
+				continue
+			}
+			pt, isPtr := params[i].Type().Underlying().(*types.Pointer)
+			if isPtr {
+				prefix := "H|" + typeKey(pt.Elem()) + "|"
+				out[prefix] = append(out[prefix], args[i][0])
+				if deref {
+					if sl, ok := pt.Elem().Underlying().(*types.Slice); ok {
+						hdr := c.load(st, c.shapeOf(args[i][0], params[i].Type()))
+						aprefix := "A|" + elemKey(sl.Elem()) + "|"
+						out[aprefix] = append(out[aprefix], hdr[0])
+					}
+				}
+			}
+			if sl, ok := params[i].Type().Underlying().(*types.Slice); ok && !deref {
+				// a slice parameter: only its backing array changes
+				prefix := "A|" + elemKey(sl.Elem()) + "|"
+				out[prefix] = append(out[prefix], args[i][0])
+			}
+		}
+	}
+	return out
+}
+
+// rootFunction: the outermost enclosing function of a (possibly anonymous) function.
+func rootFunction(fn *ssa.Function) *ssa.Function {
+	for fn.Parent() != nil {
+		fn = fn.Parent()
+	}
+	return fn
+}
+
+// unitMeasure evaluates the decreases measure of the function under
+// verification at its entry. For a closure unit it is the measure of the
+// enclosing function on the values of that function's parameters, which the
+// closure must capture unmodified (so that they are the entry values).
+func (f *Frame) unitMeasure() (Term, *Clause, string) {
+	c := f.ctx
+	top := f.topFrame()
+	root := rootFunction(top.fn)
+	if top.fn == root {
+		if top.block == nil || top.block.Dec == nil {
+			return Term{}, nil, "the function under verification has no decreases measure"
+		}
+		n := top.block.Dec.Fn.Signature.Params().Len()
+		if n > len(top.argVals) {
+			return Term{}, nil, "measure arity"
+		}
+		return c.evalSpecFn(top.block.Dec.Fn, top.argVals[:n], top.entry, snapOf(top.entry), top)[0], top.block.Dec, ""
+	}
+	rb := c.eng.ld.ByFn[root]
+	if rb == nil || rb.Dec == nil {
+		return Term{}, nil, "the enclosing function " + root.Name() + " has no decreases measure"
+	}
+	if top.fn.Parent() != root {
+		return Term{}, nil, "closure nested more than one level below " + root.Name()
+	}
+	// the MakeClosure instruction of this closure in the parent
+	var mc *ssa.MakeClosure
+	for _, b := range root.Blocks {
+		for _, in := range b.Instrs {
+			if m, ok := in.(*ssa.MakeClosure); ok && m.Fn == top.fn {
+				mc = m
+			}
+		}
+	}
+	if mc == nil {
+		return Term{}, nil, "closure creation not found in " + root.Name()
+	}
+	var args [][]Term
+	for _, p := range root.Params {
+		found := false
+		for i, b := range mc.Bindings {
+			if i >= len(top.bindings) {
+				break
+			}
+			if b == ssa.Value(p) {
+				args = append(args, top.bindings[i])
+				found = true
+				break
+			}
+			// captured by reference: a cell of the parent that is only ever
+			// assigned the parameter (so it still holds the entry value)
+			if a, ok := b.(*ssa.Alloc); ok && a.Comment == p.Name() {
+				only := true
+				for _, ref := range *a.Referrers() {
+					if st, ok := ref.(*ssa.Store); ok && st.Addr == ssa.Value(a) && st.Val != ssa.Value(p) {
+						only = false
+					}
+				}
+				// stores inside closures that capture the cell
+				for _, anon := range root.AnonFuncs {
+					for fi, fv := range anon.FreeVars {
+						_ = fi
+						if fv.Name() != p.Name() {
+							continue
+						}
+						for _, ref := range *fv.Referrers() {
+							if st, ok := ref.(*ssa.Store); ok && st.Addr == ssa.Value(fv) {
+								only = false
+							}
+						}
+					}
+				}
+				if pt, ok := a.Type().Underlying().(*types.Pointer); ok && only {
+					sh := &PtrShape{Kind: pObj, Ref: top.bindings[i][0], Root: pt.Elem(), Off: 0, Typ: pt.Elem()}
+					args = append(args, c.load(top.entry, sh))
+					found = true
+					break
+				}
+			}
+		}
+		if !found {
+			// not captured (or captured after reassignment): an unknown value;
+			// a measure that depends on it will not be provable
+			args = append(args, c.freshLeaves("uncaptured_"+p.Name(), p.Type()))
+		}
+	}
+	if rb.Dec.Fn.Signature.Params().Len() != len(args) {
+		return Term{}, nil, "measure arity"
+	}
+	return c.evalSpecFn(rb.Dec.Fn, args, top.entry, snapOf(top.entry), top)[0], rb.Dec, ""
+}
+
+func (f *Frame) recursionObligation(in ssa.Instruction, callee *ssa.Function, blk *Block, args [][]Term, st *State) {
+	c := f.ctx
+	if f.spec || callee == nil {
+		return
+	}
+	top := f.topFrame()
+	root := rootFunction(top.fn)
+	if callee != root && !c.eng.reaches(callee, root) {
+		return
+	}
+	rb := c.eng.ld.ByFn[root]
+	if blk == nil || blk.Dec == nil {
+		// a recursive cycle through a callee without measure: only an issue when
+		// termination of this unit is claimed (its root has a measure)
+		if rb != nil && rb.Dec != nil && !rb.IsGhostDecl {
+			c.addObl(&Obligation{Name: c.oblName(f.label, "rec-decreases"), Kind: "rec-decreases", Fn: f.label, Pos: f.posOf(in.Pos()), Text: "recursion through " + callee.Name() + ", which has no decreases measure", Reach: st.Reach, Goal: TFalse})
+		}
+		return
+	}
+	if rb == nil || rb.Dec == nil {
+		if top.fn == root && callee != root {
+			return // this unit claims no termination
+		}
+		if top.fn != root {
+			return
+		}
+	}
+	d0, cl, why := f.unitMeasure()
+	if cl == nil {
+		c.addObl(&Obligation{Name: c.oblName(f.label, "rec-decreases"), Kind: "rec-decreases", Fn: f.label, Pos: f.posOf(in.Pos()), Text: "recursive call of " + callee.Name() + ": " + why, Reach: st.Reach, Goal: TFalse})
+		return
+	}
+	n := blk.Dec.Fn.Signature.Params().Len()
+	if n > len(args) {
+		return
+	}
+	d1 := c.evalSpecFn(blk.Dec.Fn, args[:n], st, snapOf(st), f)[0]
+	c.addObl(&Obligation{Name: c.oblName(f.label, "rec-decreases"), Kind: "rec-decreases", Fn: f.label, Pos: f.posOf(in.Pos()), Text: "decreases " + blk.Dec.Text + "  [call of " + callee.Name() + " must lower the measure " + cl.Text + "]", Reach: st.Reach, Goal: And(Ge(d0, IntLit(0)), Lt(d1, d0)), Clause: blk.Dec})
 }
